@@ -395,7 +395,11 @@ def family_b(sim):
                 try:
                     pool.start()
                 except AssertionError:
-                    sim.probe("torn_limit_pair_seen")   # see adjust: start() read min/max between a concurrent adjustPoolsize's two stores
+                    # see adjust: start() read min/max between a concurrent adjustPoolsize's two stores and tripped its own assert
+                    # half-way (after `started = True`, before the backlog was handed to workers).  The statement makes no claim about
+                    # concurrent limit setters: from here on the run gives no verdict on tasks that never ran.
+                    sim.probe("torn_limit_pair_seen")
+                    state["start_aborted_by_torn_limits"] = True
                     pool.started = True
                 sim.probe("started_with_backlog") if pool._team.statistics().backloggedWorkCount else None
 
@@ -423,6 +427,8 @@ def family_b(sim):
         for i, r in results.items():
             sim.check("result-exactly-once", len(r) == 1 and ran.get(i) == 1, "threadpool", "task %d: onResult %d times, ran %s" % (i, len(r), ran.get(i)))
         missing = [i for i in submitted_before_stop if ran.get(i, 0) != 1 or len(results.get(i, [])) != 1]
+        if state.get("start_aborted_by_torn_limits"):
+            missing = [i for i in missing if ran.get(i, 0) > 1 or len(results.get(i, [])) > 1]   # never-ran gets no verdict; twice still does
         sim.check("accepted-task-ran-and-reported-once", not missing, "threadpool",
                   "tasks submitted before stop() that did not run/report exactly once: %r (ran=%r)" % (missing[:5], {i: ran.get(i) for i in missing[:5]}))
         # late submission after stop(): silently ignored, never run
